@@ -11,6 +11,7 @@ mod child;
 mod engine;
 mod expr;
 mod g;
+mod gen;
 mod model;
 mod props;
 mod run;
